@@ -1,4 +1,4 @@
-import CardVerif.Model.Betting
+import CardModel.Model.Betting
 /-!
 # The betting rules, stated over a state and its history (C03, C13) – independent of the implementation
 
